@@ -27,7 +27,7 @@ CLAIMED = {
             "Trusts the scripted I/O object to honour the AsyncRead/AsyncWrite contracts; only poll-level schedules of one transport are explored.",
             "property-based testing: model-based (stream prefix invariants) with scripted fault/short-IO injection", "5 C14"),
     "C02": ("bus", "exploration",
-            "Generated call/reply/abort/destroy/disconnect histories by raw protocol peers of versions 1.14..1.20 run lock-step against the real broker (on a deterministic single-threaded simulator that owns the schedule and the broker's hash orders/cookies) and a reference model; after every step each connection must have received exactly the model's messages: exactly one correctly routed reply per call, none for non-owner/duplicate/post-abort replies.",
+            "Generated call/reply/abort/destroy/disconnect histories by raw protocol peers of versions 1.14..1.20 run lock-step against the real broker (on a deterministic single-threaded simulator that owns the schedule and the broker's hash orders/cookies) and a reference model; after every step each connection must have received exactly the model's messages: exactly one correctly routed reply per call, none for non-owner/duplicate/post-abort replies; a callee-side serial whose call ended by service destruction (a late reply may still come) must not be handed to a new call of that connection.",
             "Trusts harness/bus/src/model.rs as the statement of the protocol; lock-step (one message in flight per step); broker-chosen serials are read from the observed forwards.",
             "model-based property testing: generated histories, lock-step comparison with a reference model", "5 C02"),
     "C03": ("bus", "exploration",
@@ -63,8 +63,8 @@ CLAIMED = {
             "Quiescence of the simulator stands for 'the peer has acted'; stream-class waits are only judged in three situations where the harness knows the peer's action happened; wall-clock time is never a signal.",
             "property-based testing: generated API programs x generated schedules on a deterministic executor, quiescence/liveness and consistency oracles", "5 C06"),
     "C15": ("api", "fault_enumeration",
-            "Twelve multi-operation client scenarios x {transport error, EOF} injected at EVERY transport operation index k (exhaustive sweep, 3 schedules each) plus generated combinations with the four clean termination causes (shutdown request, last handle dropped, broker shutdown, connection shut down) and randomised schedules; oracle: run() returns (Ok for clean causes, the transport error otherwise), every operation pending at the stop or started afterwards on every kind of handle resolves with a shutdown error / end-of-stream at quiescence, the broker-side connection ends and the broker releases the connection's state.",
-            "Reads 'observes the connection as closed' as: Connection::run ends Ok for the client-side clean causes; the set of probe operations after the stop is a fixed list per handle kind.",
+            "Thirteen multi-operation client scenarios x {transport error, EOF, error leaving the connection half-open} injected at EVERY transport operation index k (exhaustive sweep, 3 schedules each), the same faults and the clean causes at generated points of GENERATED multi-client programs, plus generated combinations with the four clean termination causes (shutdown request, last handle dropped, broker shutdown, connection shut down) and randomised schedules; oracle: run() returns (Ok for clean causes, the transport error otherwise), every operation pending at the stop or started afterwards on every kind of handle resolves with a shutdown error / end-of-stream at quiescence, the broker-side connection ends and the broker releases the connection's state.",
+            "Reads 'observes the connection as closed' as: Connection::run ends Ok for the client-side clean causes; the set of probe operations after the stop is a fixed list per handle kind; a half-open fault models a transport that (as the AsyncTransport contract allows) is unusable after its first error.",
             "property-based testing with exhaustive fault-point sweep (fault injection at every transport operation) and generated schedules", "5 C15"),
     "C19": ("api", "exploration",
             "Generated histories of object/service creation, destruction and same-UUID re-creation interleaved with discoverer start/restart (all four entry kinds, partial service sets, current-only and continuous), lifetimes, find_object/wait_for_object and event consumption under generated schedules; at quiescence each discoverer's view and emitted created/destroyed sequence are compared with a model of the bus state, lifetimes must have ended iff their scope ended, found/waited objects must have existed during the wait.",
@@ -79,13 +79,13 @@ CLAIMED = {
             "The IR builders are taken as the statement of the wire-relevant description; renames of functions/events are applied to items without inline types.",
             "property-based testing: metamorphic relations (neutral vs semantic edits) over generated layouts, differential generated-code vs hand-built IR", "5 C20"),
     "C17": ("schema", "exploration",
-            "Token soups, statement soups, token/character/line mutations of all 83 repository schemas (incl. a systematic operator x file class), generated valid schemas with markdown-adversarial docs, and multi-schema parses with partial import sets; under catch_unwind: parse, render every diagnostic under several renderer settings, format when permitted, a second complete run must give the same diagnostics (sorted multiset), code generation with all option combinations when there are no errors, and a sampled check that the aldrin-gen CLI (built from the current tree) refuses schemas with errors.",
+            "Token soups, statement soups, token/character/line mutations of all 83 repository schemas (incl. a systematic operator x file class), generated valid schemas with markdown-adversarial docs, and multi-schema parses with partial import sets; under catch_unwind: parse, render every diagnostic under several renderer settings, format when permitted, a second complete run must give the same diagnostics (sorted multiset), code generation with all option combinations when there are no errors, and a sampled check that the aldrin-gen CLI (built from the current tree) refuses schemas with errors. Thorough tier: plus the coverage-guided libFuzzer target schema_total over raw source text (corpus: the repository's schemas, token dictionary).",
             "Each case runs under a generated HashMap seed (getrandom shim), so hash-order dependent diagnostics are explored and replay exactly; diagnostics are compared as sorted multisets of rendered strings.",
-            "property-based testing / grammar-based fuzzing with totality + repeatability oracle", "5 C17"),
+            "property-based testing / grammar-based fuzzing with totality + repeatability oracle; coverage-guided fuzzing (libFuzzer) in the thorough tier", "5 C17"),
     "C18": ("schema", "exploration",
-            "Grammar-directed generator of syntactically valid schemas with arbitrary layout (white space incl. exotic/CRLF, blank lines, comments, docs and attributes wherever the grammar permits, compact vs multi-line bodies, duplicate/unsorted imports, injected semantic errors) plus all repository schemas: format(src) parses without syntax error to the same span-free AST projection (definition order, names, ids, types, attributes, comments, docs; imports as a sorted set), reports the same diagnostics positions aside, and format(format(src)) == format(src) byte for byte.",
+            "Grammar-directed generator of syntactically valid schemas with arbitrary layout (white space incl. exotic/CRLF, blank lines, comments, docs and attributes wherever the grammar permits, compact vs multi-line bodies, duplicate/unsorted imports, injected semantic errors) plus all repository schemas: format(src) parses without syntax error to the same span-free AST projection (definition order, names, ids, types, attributes, comments, docs; imports as a sorted set), reports the same diagnostics positions aside, and format(format(src)) == format(src) byte for byte. Thorough tier: plus the coverage-guided libFuzzer target format_text with the same oracle over raw source text.",
             "The layout printer is derived rule by rule from grammar.pest; a generated source the parser rejects is counted as a generator defect (0 observed), never reported.",
-            "property-based testing: grammar-directed generation, metamorphic (format) + idempotence oracle", "5 C18"),
+            "property-based testing: grammar-directed generation, metamorphic (format) + idempotence oracle; coverage-guided fuzzing (libFuzzer) in the thorough tier", "5 C18"),
 }
 
 NOT_YET = {}
@@ -121,7 +121,7 @@ def main():
         "engines": [
             {"name": "codec", "path": "harness/codec", "serves_properties": ["C01", "C07", "C08", "C13", "C14"], "kind_free_text": "proptest-driven tape generators + independent reference codec (refcodec) + differential/round-trip oracles; worker subprocesses with crash attribution"},
             {"name": "schema", "path": "harness/schema", "serves_properties": ["C16", "C17", "C18", "C20"], "kind_free_text": "tape-driven schema model + layout printer (grammar-directed), parser/formatter/renderer/codegen front end under catch_unwind with deterministic hash seeds; gencrate: compile-and-run pipeline for generated Rust with an oracle server process; intro: in-process introspection graphs"},
-            {"name": "api", "path": "harness/api", "serves_properties": ["C06", "C15", "C19"], "kind_free_text": "apiprog: tape-decoded programs over the public aldrin client API, interpreted by real clients and a real broker on simbus with scripted/faulty transports; quiescence oracles"},
+            {"name": "api", "path": "harness/api", "serves_properties": ["C05", "C06", "C15", "C19"], "kind_free_text": "apiprog: tape-decoded programs over the public aldrin client API, interpreted by real clients and a real broker on simbus with scripted/faulty transports; quiescence oracles"},
             {"name": "bus", "path": "harness/bus", "serves_properties": ["C02", "C03", "C04", "C05", "C09", "C10", "C11", "C12"], "kind_free_text": "simbus (deterministic single-threaded executor + getrandom shim) running the real broker with raw protocol peers, lock-step against busmodel (reference model of the protocol)"},
         ],
         "checks": checks,
